@@ -331,7 +331,8 @@ fn cmd_check(args: &[String]) {
     let mut violated = false;
     for (eng, q, t) in plan {
         let runs = ((if tier == Tier::Quick { q } else { t }) as f64 * scale) as u64;
-        let wall_cap_s = if tier == Tier::Quick { 120.0 } else { 3600.0 };
+        // safety nets only: budgets are run counts, sized so that the caps are not reached on an idle machine
+        let wall_cap_s = if tier == Tier::Quick { 900.0 } else { 5400.0 };
         let params = Params { focus: &prop, tier, seed, runs: runs.max(1), jobs, wall_cap_s, known: &known };
         let rep = with_engine!(eng, e => runner::run_engine(e, &params));
         out!(
